@@ -29,11 +29,12 @@ def run_property(prop: str, tier: str, repo: str, only=None, quiet=False) -> int
         print(f'replay: construct {only} no longer produces an obligation')
         return 2
     funcs = sorted({o.construct.split(':')[0] for o in rs.obs})
-    rc = report.finish(rs, tier, seed, t0, ctx.analysed_summary(funcs),
+    analysed = ctx.analysed_summary(funcs)
+    if tier == 'thorough' and only is None:
+      from fdlstatic import thorough
+      analysed['thorough'] = thorough.run(ctx, rs, prop, repo, seed)
+    rc = report.finish(rs, tier, seed, t0, analysed,
                        mod.EXPLANATION, mod.ASSUMPTIONS, only=only)
-    if rc == 0 and tier == 'thorough' and only is None and hasattr(
-        mod, 'thorough_extra'):
-      rc = mod.thorough_extra(ctx, rs)
     return rc
   except AnalysisError as e:
     print(f'ANALYSIS-ERROR property={prop}: {e}')
